@@ -190,6 +190,7 @@ class Machine:
         s.nl = False
         s.last_solver = s.solver
         s.band_memo = {}
+        s.band_used = 0
         s.band_nofork = False
         s.in_ranges = {}
         s.btrace = []
@@ -842,6 +843,14 @@ class Machine:
         if prev is not None:
             s.stats['band_memo_hits'] += 1
             return int(prev[0] == pos)
+        bb = s.opts.get('band_budget')
+        if bb is not None and s.band_used >= bb:
+            # stated bound of the job: after this many comparisons decided inside a rounding band on one path, further inexact
+            # comparisons are decided as in exact real arithmetic (ties compare equal)
+            s.stats['band_budget_exact_cmp'] += 1
+            r0 = SymB({'eq': d == 0, 'ne': d != 0, 'gt': d > 0, 'ge': d >= 0, 'lt': d < 0, 'le': d <= 0}[base])
+            return r0
+        s.band_used += 1
         if base == 'lt': b = SymB(d < S, d < NS)
         elif base == 'le': b = SymB(d <= S, d <= NS)
         elif base == 'gt': b = SymB(d > NS, d > S)
@@ -912,7 +921,9 @@ class Machine:
         import itertools
         cons = ([extra] if extra is not None else []) + list(reversed(s.pc))
         s.stats['integer_enumerations'] += 1
+        t_start = time.time()
         for combo in itertools.product(*[range(s.in_ranges[n][0], s.in_ranges[n][1] + 1) for (n, v) in ints]):
+            if time.time() - t_start > 30: raise ExecError('integer-point enumeration exceeded its 30 s budget')
             sub = [(v, (z3.RealVal(c) if z3.is_real(v) else z3.IntVal(c))) for ((n, v), c) in zip(ints, combo)]
             ok = True
             for c_ in cons:
@@ -920,7 +931,7 @@ class Machine:
                 if z3.is_false(r): ok = False; break
                 if not z3.is_true(r):
                     # still contains auxiliary (sqrt/angle) variables: ask the solver for this point
-                    s2 = z3.Solver(); s2.set('timeout', 5000)
+                    s2 = z3.Solver(); s2.set('timeout', 1000)
                     for c2 in cons: s2.add(z3.substitute(c2, *sub))
                     rr = s2.check()
                     if rr == z3.unknown: return dict(zip([n for (n, v) in ints], combo))
